@@ -16,7 +16,6 @@ import (
 	"fmt"
 	"os"
 	"path/filepath"
-	"sort"
 	"strings"
 	"testing"
 
@@ -120,7 +119,6 @@ func c33History(t *testing.T, rep *vfReport, r *vfRng, nOps int, fk bool) (ops, 
 		// shutdown, with or without the snapshot-on-close
 		snapOnClose := r.Chance(40) && tailKind == ""
 		e.s.NoSnapshotOnClose = !snapOnClose
-		addrOld := e.s.Addr()
 		if err := e.s.Close(true); err != nil {
 			t.Fatalf("close: %v", err)
 		}
@@ -134,22 +132,68 @@ func c33History(t *testing.T, rep *vfReport, r *vfRng, nOps int, fk bool) (ops, 
 		rep.Count(fmt.Sprintf("shutdown-snapshot-on-close=%v", snapOnClose))
 		// peers file: this node, at its old or at a new address; sometimes with more voters
 		e.newStore()
-		cfg := [][2]string{{e.id, e.ln.Addr().String()}}
+		// the peers file: this node (a voter, at its new address) plus non-voters in ANY position
+		// (also first) and sometimes further voters; order and suffrage are part of what is compared
+		self := ssmPeer{e.id, e.ln.Addr().String(), true}
+		cfg := []ssmPeer{self}
+		for j := 0; j < r.Intn(3); j++ {
+			nv := ssmPeer{fmt.Sprintf("observer%d", j), fmt.Sprintf("127.0.0.1:%d", 41000+r.Intn(1000)), false}
+			at := r.Intn(len(cfg) + 1)
+			cfg = append(cfg[:at], append([]ssmPeer{nv}, cfg[at:]...)...)
+		}
 		multi := r.Chance(25) && round == 1
 		if multi {
 			for j := 0; j < 1+r.Intn(2); j++ {
-				cfg = append(cfg, [2]string{fmt.Sprintf("other%d", j), fmt.Sprintf("127.0.0.1:%d", 40000+r.Intn(1000))})
+				v := ssmPeer{fmt.Sprintf("other%d", j), fmt.Sprintf("127.0.0.1:%d", 40000+r.Intn(1000)), true}
+				at := r.Intn(len(cfg) + 1)
+				cfg = append(cfg[:at], append([]ssmPeer{v}, cfg[at:]...)...)
 			}
 		}
-		_ = addrOld
-		e.writePeers(cfg)
-		var want []string
-		for _, c := range cfg {
-			want = append(want, c[0]+"@"+c[1])
+		// sometimes the file is one checkRaftConfiguration must refuse
+		if r.Chance(15) {
+			bad := append([]ssmPeer(nil), cfg...)
+			kind := ""
+			switch r.Intn(3) {
+			case 0:
+				for i := range bad {
+					bad[i].voter = false
+				}
+				kind = "no-voter"
+			case 1:
+				bad = append(bad, ssmPeer{self.id, "127.0.0.1:39999", true})
+				kind = "duplicate-id"
+			default:
+				bad = append(bad, ssmPeer{"dupaddr", self.addr, false})
+				kind = "duplicate-address"
+			}
+			e.writePeers(bad)
+			e.emit("peers "+ssmPeersLine(bad), "ok")
+			e.hist = append(e.hist, "invalid-peers("+kind+")")
+			rep.Count("invalid-peers-file-" + kind)
+			err := e.s.Open()
+			if err == nil {
+				rep.Fail("invalid-peers-file-accepted:"+kind, fmt.Sprintf("history %v: Open succeeded with peers file %s", e.hist, ssmPeersLine(bad)), map[string]interface{}{"history": e.hist})
+				e.broken = true
+				break
+			}
+			e.emit("open", "open-failed")
+			if _, serr := os.Stat(filepath.Join(e.dir, "raft/peers.json")); serr != nil {
+				rep.Fail("invalid-peers-file-consumed", fmt.Sprintf("history %v", e.hist), nil)
+			}
+			ssmAbandon(e.s)
+			e.ln.Close()
+			e.newStore()
+			self.addr = e.ln.Addr().String()
+			for i := range cfg {
+				if cfg[i].id == self.id {
+					cfg[i].addr = self.addr
+				}
+			}
 		}
-		sort.Strings(want)
-		e.emit("peers "+strings.Join(want, ";"), "ok")
-		e.hist = append(e.hist, fmt.Sprintf("peers(%s)", strings.Join(want, ";")))
+		e.writePeers(cfg)
+		want := ssmPeersLine(cfg)
+		e.emit("peers "+want, "ok")
+		e.hist = append(e.hist, fmt.Sprintf("peers(%s)", want))
 		// RecoverNode's own snapshot wakes the snapshot store's background reaper; while it holds
 		// the store's write lock raft's non-blocking List/Open of snapshots are refused and the
 		// start aborts. Recovery itself is complete by then (peers file consumed), a later start
@@ -182,11 +226,11 @@ func c33History(t *testing.T, rep *vfReport, r *vfRng, nOps int, fk bool) (ops, 
 				map[string]interface{}{"history": e.hist, "before": before, "after": after})
 			e.broken = true
 		}
-		gotCfg := ssmRaftConfig(e.s)
+		gotCfg := ssmRaftConfigList(e.s)
 		e.emit("config", gotCfg)
-		if gotCfg != strings.Join(want, ";") {
-			rep.Fail("recovered-configuration-differs-from-peers-file", fmt.Sprintf("history %v: raft configuration %q, peers file %q", e.hist, gotCfg, strings.Join(want, ";")),
-				map[string]interface{}{"history": e.hist})
+		if gotCfg != want {
+			rep.Fail("recovered-configuration-differs-from-peers-file", fmt.Sprintf("history %v: raft configuration %q, peers file %q (ordered id@address, /N = non-voter)", e.hist, gotCfg, want),
+				map[string]interface{}{"history": e.hist, "got": gotCfg, "want": want})
 		}
 		if _, err := os.Stat(filepath.Join(e.dir, "raft/peers.json")); err == nil {
 			rep.Fail("peers-file-not-consumed", fmt.Sprintf("history %v", e.hist), nil)
